@@ -50,16 +50,24 @@ for meta in sorted(glob.glob(os.path.join(V, "seeded/*/meta.json"))):
     for c in d.get("checks", [d["property"]]):
         v = r.get("checks", {}).get(c)
         cells.append("%s: %s" % (c, "not run" if v is None else ("caught (`%s`)" % short(v.get("first_key"), 80) if v["detected"] else "MISSED")))
-    note = SEED_NOTES.get(sid, ("see README.md", "see README.md"))
+    note = SEED_NOTES.get(sid, (d.get("change", "see README.md"), d.get("needs", "see README.md")))
     rows.append("| %s | %s | %s | %s | %s |" % (sid, d["property"], note[0], note[1], "<br>".join(cells)))
-st = ("Twenty changes, one per property, were written by fresh sub-agents that were given only the property text and a scratch\n"
-      "worktree (nothing from /verif). Each was confirmed with `run/confirm_seed.py` in a separate scratch worktree (repository's own\n"
-      "autotools build; demonstration exits 0 before and non-zero after `git apply patch.diff`; `make test` still passes: 132 \"ok\" lines)\n"
-      "and is kept as `seeded/<id>/` (patch.diff, demo.c, README.md, meta.json). None is applied to /repo.\n\n" + "\n".join(rows) + "\n\n"
-      "First pass: 18 of 20 were caught by the checks as they stood. `C16_a` (leak only on the P-xor-Q branch of the three-data XOR decoder) was\n"
+waves = sorted({os.path.basename(os.path.dirname(m))[-1] for m in glob.glob(os.path.join(V, "seeded/*/meta.json"))})
+nseed = len(glob.glob(os.path.join(V, "seeded/*/meta.json")))
+fp_rows = []
+for meta in sorted(glob.glob(os.path.join(V, "seeded/*/meta.json"))):
+    d = json.load(open(meta)); sid = os.path.basename(os.path.dirname(meta))
+    if d.get("first_pass", "caught") != "caught":
+        fp_rows.append("* `%s`: %s" % (sid, d["first_pass"]))
+st = ("%d changes in %d waves (`_a`, `_b`, ...), one per property and wave, were written by fresh sub-agents that were given only the property text and a scratch\n"
+      "worktree (nothing from /verif; from the second wave on also one line saying what earlier attempts had changed, so that they would do something else). Each was confirmed\n"
+      "with `run/confirm_seed.py` in a separate scratch worktree (repository's own autotools build; demonstration exits 0 before and non-zero after `git apply patch.diff`;\n"
+      "`make test` still passes: 132 \"ok\" lines) and is kept as `seeded/<id>/` (patch.diff, demo.c, README.md, meta.json). None is applied to /repo.\n\n" % (nseed, len(waves)) + "\n".join(rows) + "\n\n"
+      "First pass of wave `_a`: 18 of 20 caught by the checks as they stood. `C16_a` (leak only on the P-xor-Q branch of the three-data XOR decoder) was\n"
       "missed by the random histories of C16; the check gained a systematic sweep of every erasure set within tolerance of all 38 tables under the\n"
       "ledger/LSan and now catches it. `C15_a` (in-place XOR into a caller's parity on the same rare branch) was caught only through one lucky random\n"
-      "erasure set; C15 gained the exhaustive XOR sweep on write-protected, end-pinned, aligned fragments and now catches it on every table that has such triples.\n")
+      "erasure set; C15 gained the exhaustive XOR sweep on write-protected, end-pinned, aligned fragments and now catches it on every table that has such triples.\n\n"
+      "Later waves - changes that the checks missed (or caught only by luck) when first run, and what was strengthened:\n\n" + "\n".join(fp_rows) + "\n")
 p = os.path.join(V, "DESIGN.md"); s = open(p).read()
 a = s.index("### 10.1 Results"); b = s.index("### 10.2 Independently seeded changes"); c = s.index("---------------------------------------------------------------------------\n\n## 11.")
 s = s[:a] + "### 10.1 Results\n\n" + mt + "\n" + "### 10.2 Independently seeded changes\n\n" + st + "\n" + s[c:]
